@@ -168,6 +168,18 @@ def o193(ctx):
     ctx.count(1)
     if len(cat) != 1:
         ctx.finding(q, fl, "the tomogram's chains must be concatenated into the result once per tomogram", fl, m)
+
+    def own_loop(n_):
+        p_ = m.parents.get(n_)
+        while p_ is not None and not isinstance(p_, (ast.For, ast.While)):
+            p_ = m.parents.get(p_)
+        return p_
+
+    skips = [n_ for n_ in ast.walk(fl) if isinstance(n_, (ast.Continue, ast.Break)) and own_loop(n_) is fl]
+    ctx.count(1)
+    if skips:
+        ctx.finding(q, skips[0], "an iteration of the tomogram loop is abandoned (continue / break) before its particles reach the result: every "
+                    "particle of every tomogram must be returned exactly once, also the single particle of a one-particle tomogram", skips[0], m)
     # (b) append + flags cleared in the same block, behind the remaining-guard
     appends = [n for n in ast.walk(fl) if isinstance(n, ast.Assign) and "pd.concat" in src(n.value) and ".iloc[[" in src(n.value)]
     if len(appends) != 1:
